@@ -43,6 +43,16 @@ func formatErrorsWithCode(data map[string]interface{}, err error, code string) m
 		errList = graphql.ErrorList{
 			graphql.NewError(code, err.Error()),
 		}
+	} else {
+		// an entry that is not a graphql error would be serialized as {}, without its message
+		formatted := make(graphql.ErrorList, 0, len(errList))
+		for _, entry := range errList {
+			if _, ok := entry.(*graphql.Error); !ok && entry != nil {
+				entry = graphql.NewError(code, entry.Error())
+			}
+			formatted = append(formatted, entry)
+		}
+		errList = formatted
 	}
 
 	return map[string]interface{}{
